@@ -28,7 +28,7 @@ EXPLANATION = (
 NOT_DECIDED = ["decoded header / address / body values", "date conversion", "charset fallbacks", "that mailparser and the stdlib parser agree on a given message",
                "attachments whose MIME type is generic (application/octet-stream) are skipped although their name is supported (is_supported_mime_type gate, documented behaviour)"]
 TRUSTED = ["email.message.Message.walk / get_payload(decode=True) / get_filename, mailparser's attachment dictionaries, re module semantics"]
-FLOORS = {"C16-SIB": 27, "C16-ATT": 6, "C16-ORDER": 2, "C16-SEP": 15, "C16-ROUTE": 5}
+FLOORS = {"C16-SIB": 27, "C16-ATT": 6, "C16-ORDER": 2, "C16-SEP": 15, "C16-ROUTE": 5, "C16-BYTES": 6}
 
 EML = X + "mail/eml_email_extractor.py"
 MBOX = X + "mail/mbox_email_extractor.py"
@@ -342,4 +342,40 @@ def rule_route(ctx: Ctx) -> RuleReport:
     return rep
 
 
-RULES = [rule_sib, rule_att, rule_order, rule_sep, rule_route]
+BANNED = {
+    "make_header": "str(email.header.make_header(...)) re-composes a header: Header.__str__ inserts a space between a chunk in a non-ASCII charset and an adjacent ASCII chunk, "
+                   "so 'K=F6hler?=, Anna' decodes to 'Köhler , Anna', and an unknown charset raises instead of falling back",
+}
+
+
+def rule_bytes(ctx: Ctx) -> RuleReport:
+    """'every attachment with its ... exact bytes': between the MIME part and EmailAttachment.data only the transfer encoding is undone."""
+    from sa.engine.callgraph import calls_in
+    from sa.rules.common import transcode_chains
+
+    rep = RuleReport("C16-BYTES", "attachment bytes are never re-encoded (no bytes -> str -> bytes chain where EmailAttachment is built); header text is not rebuilt with APIs that insert separators")
+    n_ctor = 0
+    for rel in (EML, MBOX, MSG):
+        m = ctx.p.module(rel)
+        for fi in m.functions.values():
+            ctors = _ctor_calls(fi.node, "EmailAttachment")
+            if ctors:
+                n_ctor += 1
+                rep.unit(fi.key)
+                chains = transcode_chains(fi.node)
+                if chains:
+                    for c in chains:
+                        rep.fail(Finding("C16-BYTES", rel, fi.qual, "transcoded: " + anorm(c, fi.node), f"`{short(c, 70)}` re-encodes bytes in the function that builds EmailAttachment: an attachment is a file, its bytes must come back unchanged (a latin-1 CSV or an HTML page that declares its own charset is corrupted)", line=c.lineno))
+                else:
+                    rep.ok({"fn": fi.qual, "attachment_bytes": "no transcoding"})
+            for c in calls_in(fi):
+                d = (dotted(c.func) or "").split(".")[-1]
+                if d in BANNED:
+                    rep.fail(Finding("C16-BYTES", rel, fi.qual, f"banned API {d}", BANNED[d], line=c.lineno))
+        rep.ok({"module": rel, "banned_apis": "none of " + ", ".join(sorted(BANNED))})
+    if n_ctor < 3:
+        raise AnalysisError(f"C16-BYTES: only {n_ctor} functions build EmailAttachment (3 confirmed)")
+    return rep
+
+
+RULES = [rule_sib, rule_att, rule_order, rule_sep, rule_route, rule_bytes]
